@@ -353,6 +353,28 @@ func main() {
 			bad("S3 round %d: the in-flight caller got status %d body %s after extra callers were refused (posted %s)", round, o.status, sha(o.body), sha(p))
 		}
 		rep.Cases++
+		// ---- S3b: extra callers after the runtime has posted its response but before it asks for the next
+		// event (the invocation is still in flight): refused, and the in-flight caller still gets its response
+		n++
+		p = payload(rg, 3000+round)
+		touch(r.file("stall", n))
+		touch(r.file("gate", n))
+		go func() { res <- r.invoke(p) }()
+		if !waitFile(r.file("posted", n), 10*time.Second) {
+			bad("S3b round %d: the runtime did not post its response", round)
+		}
+		o2 = r.invoke([]byte("late-second"))
+		o3 = r.invoke(payload(rg, 70000))
+		if o2.status != 400 || o3.status != 400 {
+			bad("S3b round %d: extra callers after the response was posted, before the runtime's next poll, got %d and %d (want 400, 400)", round, o2.status, o3.status)
+		}
+		touch(r.file("resume", n))
+		o = <-res
+		if o.status != 200 || sha(o.body) != sha(p) {
+			bad("S3b round %d: the in-flight caller got status %d and %d bytes (%s) after extra callers were refused between the runtime's response and its next poll (the runtime posted %d bytes, %s)",
+				round, o.status, len(o.body), sha(o.body), len(p), sha(p))
+		}
+		rep.Cases++
 		if !r.alive() {
 			bad("round %d: the emulator process exited: %v\n%s", round, r.exitErr, tailStr(r.log.String()))
 		}
